@@ -18,3 +18,6 @@ import GlareModel.Props.C03
 import GlareModel.Props.C06
 import GlareModel.Props.C07
 import GlareModel.Props.C09
+import GlareModel.Core.Like
+import GlareModel.Core.Str
+import GlareModel.Props.C20
